@@ -390,6 +390,10 @@ func (c *ivCtx) lowerBound(v ssa.Value, assume map[ssa.Value]int, depth int) (in
 		if bi, ok := x.Call.Value.(*ssa.Builtin); ok && (bi.Name() == "len" || bi.Name() == "cap") {
 			return 0, true
 		}
+		// a module function with one integer result (a counting helper)
+		if x.Call.StaticCallee() != nil && isIntType(x.Type()) {
+			return c.resultLowerBound(x, 0, assume, depth)
+		}
 	case *ssa.BinOp:
 		switch x.Op {
 		case token.ADD:
@@ -919,8 +923,70 @@ func (c *ivCtx) graphAt(fn *ssa.Function, b *ssa.BasicBlock, ints []ssa.Value, b
 			g.add("Z", n, 0)
 		}
 	}
+	c.phiLenBounds(g, fn, bases, params)
 	g.close()
 	return g
+}
+
+// phiLenBounds: a slice (or string) that is a phi is bounded by what bounds it on every
+// incoming edge. `if len(a) < len(b) { b = b[:len(a)] }` leaves len(b) ≤ len(a): on the edge
+// that skips the clamp the test says so, on the other one the re-slice does. For every slice
+// phi mentioned in the graph and every base X of the site, len(phi) ≤ len(X) is added when it
+// follows on each edge from the facts of that edge and the shape of the edge's value.
+func (c *ivCtx) phiLenBounds(g *ivGraph, fn *ssa.Function, bases []ssa.Value, params map[ssa.Value]string) {
+	if params != nil {
+		return
+	}
+	for _, b := range fn.Blocks {
+		for _, ins := range b.Instrs {
+			ph, ok := ins.(*ssa.Phi)
+			if !ok {
+				break
+			}
+			switch ph.Type().Underlying().(type) {
+			case *types.Slice:
+			case *types.Basic:
+				if bt := ph.Type().Underlying().(*types.Basic); bt.Kind() != types.String {
+					continue
+				}
+			default:
+				continue
+			}
+			LP := "L:" + c.key(ph, nil)
+			if _, mentioned := g.idx[LP]; !mentioned {
+				continue
+			}
+			for _, X := range bases {
+				if X == nil || X == ssa.Value(ph) {
+					continue
+				}
+				LX := "L:" + c.key(X, nil)
+				all := true
+				for ei, e := range ph.Edges {
+					pred := b.Preds[ei]
+					eg := newIvGraph()
+					eg.node("Z")
+					for _, k := range c.domCons(pred, nil) {
+						eg.add(k.x, k.y, k.c)
+					}
+					if iff, ok := pred.Instrs[len(pred.Instrs)-1].(*ssa.If); ok && len(pred.Succs) == 2 && pred.Succs[0] != pred.Succs[1] {
+						for _, k := range c.condCons(iff.Cond, pred.Succs[0] == b, nil, 0) {
+							eg.add(k.x, k.y, k.c)
+						}
+					}
+					c.structuralLen(eg, fn, pred, e, nil, 0)
+					eg.close()
+					if !eg.le("L:"+c.key(e, nil), LX, 0) {
+						all = false
+						break
+					}
+				}
+				if all && len(ph.Edges) > 0 {
+					g.add(LP, LX, 0)
+				}
+			}
+		}
+	}
 }
 
 func (g *ivGraph) holds(r ivReq) bool {
